@@ -58,6 +58,104 @@ theorem lastValue_nil (pf : String → FloatLit) (dyn : Bool) (p : String → Bo
     lastValue pf dyn p [] = none := by
   simp [lastValue]
 
+theorem lastValue_none_iff (pf : String → FloatLit) (dyn : Bool) (p : String → Bool) (l : List String) :
+    lastValue pf dyn p l = none ↔ ∀ t ∈ l, ¬ (p t = true ∧ (valueOf pf dyn t).isSome = true) := by
+  induction l with
+  | nil => simp [lastValue_nil]
+  | cons x xs ih =>
+    rw [lastValue_cons]
+    cases hl : lastValue pf dyn p xs with
+    | some w =>
+      simp only [reduceCtorEq, false_iff]
+      intro hall
+      have := ih.mpr (fun t ht => hall t (List.mem_cons_of_mem _ ht))
+      rw [hl] at this; cases this
+    | none =>
+      have hxs := ih.mp hl
+      simp only [List.mem_cons, forall_eq_or_imp]
+      constructor
+      · intro h
+        refine ⟨?_, hxs⟩
+        intro hq
+        have hq' : (p x && (valueOf pf dyn x).isSome) = true := by simp [hq.1, hq.2]
+        rw [if_pos hq'] at h
+        rw [h] at hq
+        simp at hq
+      · rintro ⟨hx, _⟩
+        split
+        · rename_i hq
+          simp only [Bool.and_eq_true] at hq
+          exact absurd hq hx
+        · rfl
+
+/-- `lastValue` is the value of the *last* argument of the kind `p` that carries a value -/
+theorem lastValue_some_iff (pf : String → FloatLit) (dyn : Bool) (p : String → Bool) (l : List String) (v : TolVal) :
+    lastValue pf dyn p l = some v ↔
+      ∃ l₁ s l₂, l = l₁ ++ s :: l₂ ∧ p s = true ∧ valueOf pf dyn s = some v ∧
+        ∀ t ∈ l₂, ¬ (p t = true ∧ (valueOf pf dyn t).isSome = true) := by
+  induction l with
+  | nil => simp [lastValue_nil]
+  | cons x xs ih =>
+    rw [lastValue_cons]
+    cases hl : lastValue pf dyn p xs with
+    | some w =>
+      simp only [Option.some.injEq]
+      constructor
+      · rintro rfl
+        obtain ⟨l₁, s, l₂, rfl, h1, h2, h3⟩ := ih.mp hl
+        exact ⟨x :: l₁, s, l₂, rfl, h1, h2, h3⟩
+      · rintro ⟨l₁, s, l₂, he, h1, h2, h3⟩
+        cases l₁ with
+        | nil =>
+          simp only [List.nil_append, List.cons.injEq] at he
+          obtain ⟨rfl, rfl⟩ := he
+          have := (lastValue_none_iff pf dyn p xs).mpr h3
+          rw [hl] at this; cases this
+        | cons y ys =>
+          simp only [List.cons_append, List.cons.injEq] at he
+          obtain ⟨rfl, rfl⟩ := he
+          have := ih.mpr ⟨ys, s, l₂, rfl, h1, h2, h3⟩
+          rw [hl] at this
+          exact Option.some.inj this
+    | none =>
+      have hxs := (lastValue_none_iff pf dyn p xs).mp hl
+      simp only
+      constructor
+      · intro h
+        split at h
+        · rename_i hq
+          simp only [Bool.and_eq_true] at hq
+          exact ⟨[], x, xs, rfl, hq.1, h, hxs⟩
+        · cases h
+      · rintro ⟨l₁, s, l₂, he, h1, h2, h3⟩
+        cases l₁ with
+        | nil =>
+          simp only [List.nil_append, List.cons.injEq] at he
+          obtain ⟨rfl, rfl⟩ := he
+          have hq' : (p x && (valueOf pf dyn x).isSome) = true := by simp [h1, h2]
+          rw [if_pos hq', h2]
+        | cons y ys =>
+          simp only [List.cons_append, List.cons.injEq] at he
+          obtain ⟨rfl, rfl⟩ := he
+          exact absurd ⟨h1, by simp [h2]⟩ (hxs s (by simp))
+
+/-- arguments of another kind are irrelevant: `lastValue p` only looks at arguments satisfying `p` -/
+theorem lastValue_filter (pf : String → FloatLit) (dyn : Bool) (p q : String → Bool) (l : List String)
+    (hpq : ∀ s, p s = true → q s = true) :
+    lastValue pf dyn p (l.filter q) = lastValue pf dyn p l := by
+  induction l with
+  | nil => rfl
+  | cons x xs ih =>
+    by_cases hq : q x = true
+    · rw [List.filter_cons_of_pos hq, lastValue_cons, lastValue_cons, ih]
+    · have hq' : q x = false := by simpa using hq
+      have hp : p x = false := by
+        cases hpx : p x with
+        | false => rfl
+        | true => rw [hpq x hpx] at hq'; cases hq'
+      rw [List.filter_cons_of_neg hq, lastValue_cons, ih]
+      cases lastValue pf dyn p xs <;> simp [hp]
+
 end Spec
 
 /-- state of the loop: what a lookup of `name` yields -/
